@@ -265,7 +265,7 @@ def r11c(ctx):
                 t = e.data[0]
                 mc = method_call(t)
                 if mc and mc[1] == 'update_softmax_options':
-                    ok, why = forwarding_ok(ctx, fn, t)
+                    ok, why = forwarding_ok(ctx, fn, t, p)
                     ctx.ob('R11c', f'{fn.cls.name}.update_softmax_options forwards to '
                            f'{short(mc[0], 40)}', ok,
                            'every option forwarded unchanged in its own slot' if ok else
@@ -291,13 +291,57 @@ def _fold_none(t, q):
     return tuple(_fold_none(x, q) for x in t)
 
 
-def forwarding_ok(ctx, fn: FunctionInfo, t: Term):
+def forwarding_ok(ctx, fn: FunctionInfo, t: Term, p=None):
     """A forwarding call ``x.update_softmax_options(a0, a1, ..., k=v)`` must bind each option
     of the caller to the parameter of the same name of the callee.  Callee signatures are the
     update_softmax_options implementations of the repository that accept this arity."""
     repo = ctx.repo
     mc = method_call(t)
     npos, kws = len(mc[2]), mc[3]
+    # the classes the receiver can be: an attribute of self (constructor annotations / calls)
+    # or a value guarded by isinstance on this path.  Dynamic dispatch can reach the override of
+    # ANY of their subclasses, so every one of them must bind the options by name
+    recv = mc[0]
+    rcls: List[ClassInfo] = []
+    if recv[0] == 'attr' and recv[1] == SELF and fn.cls is not None:
+        from ..util import attr_classes
+        rcls = list(attr_classes(repo, fn.cls, recv[2]))
+    elif p is not None:
+        for a, v in p.assumptions:
+            if v and is_call(a, 'builtins.isinstance') and len(a[2]) == 2 and a[2][0] == recv:
+                tys = a[2][1][1] if a[2][1][0] == 'tuple' else (a[2][1],)
+                rcls += [repo.classes[ty[1]] for ty in tys
+                         if ty[0] == 'global' and ty[1] in repo.classes]
+    impls = []
+    for k in rcls:
+        for k2 in repo.subclasses(k):
+            m = repo.find_method(k2, 'update_softmax_options')
+            if m is not None and m not in impls and m is not fn:
+                impls.append(m)
+    impls = [m for m in impls if returning(paths(repo, m))]     # abstract stubs raise
+    if impls:
+        problems = []
+        for f in impls:
+            ps = f.params[1:]
+            bad = []
+            if npos + len(kws) > len(ps):
+                bad.append('accepts fewer options')
+            for i, a in enumerate(mc[2][:len(ps)]):
+                if a == NONE:
+                    continue
+                if a[0] != 'param':
+                    bad.append(f'slot {ps[i]} receives {short(a, 30)}')
+                elif a[1] != ps[i]:
+                    bad.append(f'slot {ps[i]} receives option {a[1]}')
+            for k, a in kws:
+                if a != NONE and (a[0] != 'param' or a[1] != k):
+                    bad.append(f'slot {k} receives {short(a, 30)}')
+            if bad:
+                problems.append(f'{f.cls.name}.update_softmax_options({", ".join(ps)}): ' +
+                                ', '.join(bad))
+        if problems:
+            return False, 'the receiver can be a ' + '; '.join(problems[:2])
+        return True, ''
     sigs = []
     for f in repo.all_functions():
         if f.name == 'update_softmax_options' and f.cls is not None and f is not fn:
